@@ -966,7 +966,7 @@ def stress(n_procs: int = 6, loop_s: float = 2.5, block_timeout_s: float = 0.5) 
     """Three real-process experiments, run concurrently on three lock files:
        loop  : n_procs processes loop acquire -> counter++ -> release (log lines written inside the critical section)
        kill  : H holds; W starts waiting; H is SIGKILLed while holding; W must acquire
-       block : H holds for block_timeout + 2 s; W (timeout = block_timeout) must raise TimeoutError by timeout + slack
+       block : H holds for block_timeout + 3 s; W (timeout = block_timeout) must raise TimeoutError by timeout + slack (2 s)
     Returns the three merged traces (Trace_FLock "stress" events, t in microseconds of CLOCK_MONOTONIC)."""
     d = scratch_dir("stress")
     base = _real_time.monotonic_ns()
@@ -978,7 +978,7 @@ def stress(n_procs: int = 6, loop_s: float = 2.5, block_timeout_s: float = 0.5) 
         names = [f"p{i}" for i in range(n_procs)]
         loopers = [_spawn("loop", nm, d, "loop", 20.0, loop_s, base) for nm in names]
         hk = _spawn("hold", "H", d, "kill", 20.0, 60.0, base)
-        hb = _spawn("hold", "H", d, "block", 20.0, block_timeout_s + 2.0, base)
+        hb = _spawn("hold", "H", d, "block", 20.0, block_timeout_s + 3.0, base)
         procs = loopers + [hk, hb]
         _wait_ready(os.path.join(d, "kill.H.log.ready"), [hk])
         wk = _spawn("wait", "W", d, "kill", 10.0, 0, base)
@@ -1022,7 +1022,7 @@ def stress(n_procs: int = 6, loop_s: float = 2.5, block_timeout_s: float = 0.5) 
         shutil.rmtree(d, ignore_errors=True)
 
 
-def validate_stress(st: Dict[str, Any], slack_us: int = 1_000_000) -> Dict[str, Tuple[bool, int, Optional[Tuple[int, str]], Any]]:
+def validate_stress(st: Dict[str, Any], slack_us: int = 2_000_000) -> Dict[str, Tuple[bool, int, Optional[Tuple[int, str]], Any]]:
     """One TLC run for the three experiments; returns name -> (accepted, reached, violated, TLCResult)."""
     names = list(st["traces"])
     lockers = sorted({x for t in st["traces"].values() for x in t["lockers"]})
@@ -1057,5 +1057,14 @@ def run_many(jobs: Sequence[Tuple[str, str, Dict[str, Sequence[str]], Sequence[A
         return [_job(j) for j in jobs]
     import multiprocessing as mp
 
-    with mp.get_context("spawn").Pool(procs) as pool:
+    from . import common
+
+    # the workers put their scratch under THIS process's scratch root (pool workers are terminated without atexit)
+    with mp.get_context("spawn").Pool(procs, initializer=_adopt_scratch, initargs=(common.scratch_root(),)) as pool:
         return pool.map(_job, list(jobs), chunksize=max(8, len(jobs) // (procs * 8)))
+
+
+def _adopt_scratch(root: str) -> None:
+    from . import common
+
+    common._scratch_root = root
